@@ -59,9 +59,9 @@ var (
 func GenOptions(g G, p *Project) *OptModel {
 	o := &OptModel{Metafile: true}
 	o.Bundle = !g.chance(12)
-	o.Format = g.n(3)
+	o.Format = []int{0, 1, 0, 2, 0}[g.n(5)]
 	if o.Bundle && o.Format == 0 {
-		o.Splitting = g.chance(60)
+		o.Splitting = g.chance(75)
 	}
 	o.Platform = g.n(3)
 	o.MinifyWS = g.chance(30)
